@@ -185,7 +185,7 @@ class Config:
     """per-check configuration of the interpreter"""
 
     def __init__(self, inline=(), pure=(), opaque=(), inline_all_fcppt=False, max_depth=40,
-                 loop_bound=2, hooks=None, pure_prefixes=(), inline_prefixes=(), record_prefixes=()):
+                 loop_bound=2, hooks=None, pure_prefixes=(), inline_prefixes=(), record_prefixes=(), ref_writes=False, max_steps=20000):
         self.inline = set(inline)
         self.pure = set(pure)
         self.opaque = set(opaque)
@@ -197,6 +197,9 @@ class Config:
         self.inline_prefixes = tuple(inline_prefixes)
         # classes whose constructors are interpreted field by field: the object becomes ("rec", cls, fields)
         self.record_prefixes = tuple(record_prefixes)
+        # an assignment to a parameter of non-const lvalue reference type is an event ("refwrite", bound object, value)
+        self.ref_writes = ref_writes
+        self.max_steps = max_steps
 
 
 class Interp:
@@ -365,6 +368,8 @@ class Interp:
             raise Unsupported("lambda arity mismatch")
         for p, a in zip(params, args):
             env.vars[p["id"]] = a
+            if self.cfg.ref_writes and _is_mut_ref(f.unit.ty(p.get("t"))):
+                env.vars[("ref", p["id"])] = a
         try:
             try:
                 self.exec_stmt(f.unit, op.get("body"), env, f.this)
@@ -379,7 +384,7 @@ class Interp:
         if s is None:
             return
         self.steps += 1
-        if self.steps > 20000:
+        if self.steps > self.cfg.max_steps:
             raise Unsupported("step limit")
         k = s.get("k")
         if k in ("compound", "attributed"):
@@ -577,7 +582,7 @@ class Interp:
         if n is None:
             return ("k", None)
         self.steps += 1
-        if self.steps > 20000:
+        if self.steps > self.cfg.max_steps:
             raise Unsupported("step limit")
         k = n.get("k")
         if k == "lit":
@@ -754,6 +759,8 @@ class Interp:
     def store(self, unit, lhs, v, env, this):
         l = T.unwrap(unit, lhs)
         if l is not None and l.get("k") == "ref" and l.get("dk") in ("local", "param", "static_local"):
+            if self.cfg.ref_writes and l.get("dk") == "param" and env.has(("ref", l["id"])):
+                self.event("refwrite", [env.get(("ref", l["id"])), v], unit.loc(l.get("loc")), label="refwrite")
             env.set(l["id"], v)
             return
         target = self.eval(unit, lhs, env, this)
@@ -832,9 +839,19 @@ class Interp:
         short = qn.split("::")[-1]
         if "c" in n and qn.startswith("std::numeric_limits"):
             return ("k", n["c"])
+        if qn.startswith("std::integral_constant::operator "):
+            # conversion of a compile-time constant: the value is part of the (instantiated) class name
+            import re as _re
+            m = _re.match(r"std::integral_constant<[^,]+, (-?\d+)[uUlL]*>::operator ", d["qn"])
+            if m:
+                return ("k", m.group(1))
         if qn in TRANSPARENT:
             if n.get("recv") is not None and not (n.get("opcall") == "()" and n.get("args")):
-                return self.eval(unit, n["recv"], env, this)
+                rv = self.eval(unit, n["recv"], env, this)
+                if (short == "get" and isinstance(rv, tuple) and len(rv) == 4 and rv[0] == "new" and rv[1] == "fcppt::reference"
+                        and len(rv[3]) == 1 and isinstance(rv[3][0], Closure)):
+                    return rv[3][0]     # a reference to a closure denotes the closure
+                return rv
             if not n.get("args"):
                 return ("k", None)
             return self.eval(unit, n["args"][0], env, this)
@@ -1063,6 +1080,11 @@ class Interp:
             if b and isinstance(a, tuple) and a[0] == "app" and a[1].startswith("holds<") and a[2] == (v,) and a[1] != "holds<%s>" % ty:
                 return FALSE
         return ("app", "holds<%s>" % ty, (v,))
+
+
+def _is_mut_ref(t):
+    t = (t or "").strip()
+    return t.endswith("&") and not t.endswith("&&") and not t.startswith("const ")
 
 
 def _is_class_type(t):
